@@ -425,6 +425,7 @@ type FuncSpec struct {
 	Trusted   bool // contract assumed, body not verified (only for listed reasons)
 	MayPanic  bool     // calls may panic (they run code outside the contracts): a panic point for recovering callers
 	Recovers  []Clause // what holds of the named results whenever a panic is recovered
+	Models    []Clause // limits of what an assumed contract models: a call outside them is undecided, not a violation
 	Logged    bool // calls are recorded in the ghost event log (events/evis/evarg/evres)
 	Residual  bool // interface-method contract used only for dynamic types outside the module
 	Params    []ParamDecl
@@ -520,7 +521,7 @@ func newContractSet() *ContractSet {
 var clauseKeywords = map[string]bool{
 	"requires": true, "ensures": true, "modifies": true, "loop": true, "invariant": true,
 	"decreases": true, "func": true, "extern": true, "spec": true, "lemma": true, "pure": true,
-	"inline": true, "panics": true, "trusted": true, "induction": true, "use": true, "def": true, "call": true, "apply": true, "apply_head": true, "apply_exit": true, "opaque": true, "embedded": true, "guarded": true, "callback": true, "monitor": true, "check_at_store": true, "assume_invariant": true, "residual": true, "hidden": true, "reveal": true, "logged": true, "may_panic": true, "recovers": true,
+	"inline": true, "panics": true, "trusted": true, "induction": true, "use": true, "def": true, "call": true, "apply": true, "apply_head": true, "apply_exit": true, "opaque": true, "embedded": true, "guarded": true, "callback": true, "monitor": true, "check_at_store": true, "assume_invariant": true, "residual": true, "models": true, "hidden": true, "reveal": true, "logged": true, "may_panic": true, "recovers": true,
 }
 
 // parseContractText parses the body of one or more /*@ ... @*/ blocks (already
@@ -818,6 +819,18 @@ func (cs *ContractSet) parseContractText(text, pkgPath, file string) error {
 		case "logged":
 			if curF != nil {
 				curF.Logged = true
+			}
+		case "models":
+			if curF == nil {
+				return fmt.Errorf("%s: models outside a function contract", file)
+			}
+			{
+				label, src := splitLabel(rest)
+				e, err := parseExpr(src)
+				if err != nil {
+					return fmt.Errorf("%s: models: %v", file, err)
+				}
+				curF.Models = append(curF.Models, Clause{Label: label, Src: src, E: e})
 			}
 		case "hidden":
 			if curS != nil {
